@@ -69,7 +69,7 @@ def obligations():
         C06: ['O6.1-filters', 'O6.1-filters-t', 'O6.2-latest-hashes', 'O6.2-latest-hashes-t'],
         C07: ['O7.1-quorum', 'O7.1-quorum-t', 'O7.3-add-check-points', 'O7.2-required'],
         C12: ['O12.4-child-path', 'O12.1-commit'],
-        C14: ['O14.3-vtd-no-panic', 'O14.3-vtau-no-panic', 'O14.3-no-panic-wide', 'O14.2-split'],
+        C14: ['O14.3-vtd-no-panic-q', 'O14.3-vtd-no-panic', 'O14.3-vtau-no-panic', 'O14.3-no-panic-wide', 'O14.2-split'],
     }
     for mod, ids in pick.items():
         for o in mod.obligations():
